@@ -10,6 +10,12 @@ MCChan == 1..3
 MCChanType == <<[baudDb |-> 15051500, slotDb |-> 16989700],
                 [baudDb |-> 18061800, slotDb |-> 18750613],
                 [baudDb |-> 19542425, slotDb |-> 20000000]>>
+\* second crossing, same three frequencies: 64 GBd / 75 GHz, 32 GBd / 50 GHz, 64 GBd / 75 GHz
+MCChanType2 == <<[baudDb |-> 18061800, slotDb |-> 18750613],
+                 [baudDb |-> 15051500, slotDb |-> 16989700],
+                 [baudDb |-> 18061800, slotDb |-> 18750613]>>
+MCStages == {"designed", "reloaded"}
+MCStageOne == {"designed"}
 \* node: pch -20 dBm, psd -35 dB(mW/GHz) (-19.95 dBm at 32 GBd), psw -37 dB(mW/GHz) (-20.01 dBm in 50 GHz)
 MCNodeV == [k \in PolicyKinds |-> IF k = "pch" THEN -20000000 ELSE IF k = "psd" THEN -35000000 ELSE -37000000]
 \* egress degree: 1.5 dB lower, so that using the node's value instead is visible
@@ -23,6 +29,7 @@ MCLoadCases     == AcceptedCases \cup {c \in AllCases : ~ConfigAccepted(c.lib, c
 MCLoadCasesAll  == AllCases
 
 MCDegKinds  == PolicyKinds \cup {"none", "pch0"}
+MCEltDegKindsQuick == {"none", "psd"}
 MCProfKinds == {"single", "firstListed", "explicit"}
 MCProfOne   == {"single"}
 MCCrossings == {"add", "drop", "express"}
@@ -47,14 +54,19 @@ SetSeq(S) == IF "pch" \in S THEN (IF "psd" \in S THEN (IF "psw" \in S THEN <<"pc
                                   ELSE (IF "psw" \in S THEN <<"pch", "psw">> ELSE <<"pch">>))
              ELSE (IF "psd" \in S THEN (IF "psw" \in S THEN <<"psd", "psw">> ELSE <<"psd">>)
                    ELSE (IF "psw" \in S THEN <<"psw">> ELSE <<>>))
-EmitCross == phase # "out" \/
+EmitCross == ~(phase = "out2" \/ (phase = "out" /\ ~RecrossEnabled)) \/
    PrintT("@@" \o ToJson([lib |-> SetSeq(cfg.lib), elt |-> SetSeq(cfg.elt), degKind |-> cfg.degKind,
                           crossing |-> cfg.crossing, maxloss |-> cfg.maxloss, prof |-> cfg.prof,
                           profiles |-> Profiles(cfg), explicitId |-> ExplicitId(cfg),
                           node |-> NodePolicy(cfg), deg |-> DegSetting(cfg),
                           ch |-> [k \in 1..N |-> [baudDb |-> ChanType[k].baudDb, slotDb |-> ChanType[k].slotDb,
                                                   offset |-> cfg.offset[k], maxloss |-> PathLoss(cfg)[k], in |-> last.in[k], tgt |-> last.tgt[k],
-                                                  out |-> last.out[k]]]]))
+                                                  out |-> last.out[k]]],
+                          stage |-> cfg.stage,
+                          ch2 |-> IF phase # "out2" THEN <<>>
+                                  ELSE [k \in 1..N |-> [baudDb |-> ChanType2[k].baudDb, slotDb |-> ChanType2[k].slotDb,
+                                                        offset |-> cfg.offset[k], maxloss |-> PathLoss(cfg)[k], in |-> last2.in[k],
+                                                        tgt |-> last2.tgt[k], out |-> last2.out[k]]]]))
 EmitLoad == phase \notin {"ready", "rejected"} \/
    PrintT("@@" \o ToJson([lib |-> SetSeq(cfg.lib), elt |-> SetSeq(cfg.elt), accepted |-> (phase = "ready"),
                           inforce |-> IF phase = "ready" THEN SetSeq(InForce(cfg)) ELSE <<>>]))
